@@ -61,8 +61,10 @@ SPEC = {
     "not_proved": [
         "3-D clauses of C03 (orbit3, vertex/edge/face/volume ids of CMap3, the two-sided face_id walk, iter_volumes): no theorem yet; they "
         "are supported by the hcmodel/hcimpl correspondence (every 3-D case) and by the Python oracle `oracle_c03_3d` (streams3d), which "
-        "claims the vertex clauses only on maps whose 3-glued faces are closed and mirrored, the face-id clause only on closed faces "
-        "(mirrored when glued), and the linear policies only on closed cells; outside these restrictions correspondence only",
+        "claims the vertex clauses on EVERY well-formed 3-map (since /repo e8bc83e the six vertex images are closed under inverse), the "
+        "face-id clauses on maps whose 3-glued faces are closed and mirrored (unglued faces of such maps included, open or closed), and the "
+        "linear policies only on closed cells (vl: on maps whose glued faces are closed and mirrored); outside these restrictions "
+        "correspondence only",
         "that Rust's non-transactional `orbit` iterator and `*_id` wrappers coincide with the transactional code is a fact about the code "
         "(correspondence + oracle), the model has a single program for both",
     ],
@@ -256,7 +258,8 @@ def oracle_c03(case, li):
                 same_id = ids[kind][d] == ids[kind][e]
                 same_cell = e in cells[pol][d]
                 if same_id != same_cell:
-                    return f"{kind}: darts {d} and {e} have ids {ids[kind][d]}, {ids[kind][e]} but same-cell is {same_cell}"
+                    tag = open_face_tag(kind, cells["f"][d] | cells["f"][e], b)
+                    return f"{tag}{kind}: darts {d} and {e} have ids {ids[kind][d]}, {ids[kind][e]} but same-cell is {same_cell}"
     return None
 
 
@@ -373,7 +376,7 @@ def random_maps(count, rng, nmax=40, mask=0):
 POLS3 = list(gens.OBS3_POLICIES)      # v vl e f fl vol voll c10 c01 c23 c3 c0123
 # generator images of /repo/honeycomb-core/src/cmap/dim3/orbits.rs, as index paths: (a, b) = β_b(β_a(x))
 GEN3 = {
-    "v": [(2, 3), (3, 1), (2, 1), (0, 3), (0, 2)],
+    "v": [(2, 3), (3, 1), (2, 1), (0, 3), (0, 2), (3, 2)],   # the sixth image b2(b3(d)): /repo e8bc83e (D13)
     "vl": [(2, 3), (3, 1), (2, 1)],
     "e": [(2,), (3,)],
     "f": [(1,), (0,), (3,)],
@@ -386,7 +389,7 @@ LIN3 = {"vl": "v", "fl": "f", "voll": "vol"}
 ITER3 = {"iterv": "v", "itere": "e", "iterf": "f", "itervol": "vol"}
 COUNT3 = {"maps": 0, "maps_not_wf_skipped": 0, "maps_glued_faces_open_or_unmirrored": 0, "orbit_checked": 0,
           "orbit_cell_checked": 0, "vertex_orbit_skipped": 0, "linear_closed": 0, "linear_open_skipped": 0,
-          "ids_checked": 0, "vid_skipped": 0, "fid_open_or_unmirrored_skipped": 0, "id_pairs": 0, "iter_checked": 0,
+          "ids_checked": 0, "vid_skipped": 0, "fid_open_or_unmirrored_skipped": 0, "fid_open_unglued_checked": 0, "id_pairs": 0, "iter_checked": 0,
           "iter_mechanism_checked": 0, "iter_skipped": 0, "tx_vs_plain": 0, "maps_with_removed_darts": 0,
           "volumes_with_open_face": 0, "boundary_vertices": 0}
 
@@ -473,6 +476,12 @@ def face_ok3(cell, b):
     return all(b3[x] != 0 and b1[b3[b1[x]]] == b3[x] for x in cell)
 
 
+def open_face_tag(kind, cell, b):
+    """`[fid-open-face] ` when a face-id clause fails on an OPEN face (some dart of the face is 1-free): `face_id_transac`
+    replays its walk backwards on open faces and never takes the minimum with the first dart of that replay"""
+    return "[fid-open-face] " if kind == "fid" and any(b[1][x] == 0 for x in cell) else ""
+
+
 def glued_ok3(b, n, fcells):
     """every 3-glued face of the map is closed and mirrored (the restriction of the vertex clauses)"""
     return gens.mirror3(b[1], b[3]) and all(face_ok3(fcells[x], b) for x in range(1, n) if b[3][x] != 0)
@@ -539,12 +548,10 @@ def oracle_c03_3d(case, li):
             if set(got) != fw:
                 return f"{inp}: yielded {sorted(got)} but the darts reachable through the images are {sorted(fw)}"
             if pol in SYM3:
-                if pol == "v" and not glued:
-                    COUNT3["vertex_orbit_skipped"] += 1
-                else:
-                    COUNT3["orbit_cell_checked"] += 1
-                    if set(got) != cells[pol][d]:
-                        return f"{inp}: yielded {sorted(got)} but the cell (images and inverses) is {sorted(cells[pol][d])}"
+                # since /repo e8bc83e the six vertex images are closed under inverse on every WF map: no restriction left
+                COUNT3["orbit_cell_checked"] += 1
+                if set(got) != cells[pol][d]:
+                    return f"{inp}: yielded {sorted(got)} but the cell (images and inverses) is {sorted(cells[pol][d])}"
             if pol in LIN3:
                 cell = cells[LIN3[pol]][d]
                 if linear_closed3(pol, cell, b, n) and (pol != "vl" or glued):
@@ -575,17 +582,19 @@ def oracle_c03_3d(case, li):
                     COUNT3["tx_vs_plain"] += 1
                     if other != out:
                         return f"{inp}: transactional id {out!r} but plain id {other!r}"
-            if kind == "vid" and not glued:
-                COUNT3["vid_skipped"] += 1
-                continue
-            if kind == "fid" and not face_ok3(cells["f"][d], b):
+            # face ids: claimed on maps whose GLUED faces are closed and mirrored (the property's restriction) — an unglued
+            # face of such a map is in scope whether it is closed or open
+            if kind == "fid" and not glued:
                 COUNT3["fid_open_or_unmirrored_skipped"] += 1
                 continue
             COUNT3["ids_checked"] += 1
             claimed[kind].add(d)
             want = min(cells[pol][d])
             if got[0] != want:
-                return f"{inp}: identifier {got[0]} but the smallest dart of the cell {sorted(cells[pol][d])} is {want}"
+                tag = open_face_tag(kind, cells["f"][d], b)
+                return f"{tag}{inp}: identifier {got[0]} but the smallest dart of the cell {sorted(cells[pol][d])} is {want}"
+            if kind == "fid" and any(b[1][x] == 0 for x in cells["f"][d]):
+                COUNT3["fid_open_unglued_checked"] += 1
         elif t[0] in ITER3:
             pol = ITER3[t[0]]
             kind = SYM3[pol]
@@ -599,14 +608,15 @@ def oracle_c03_3d(case, li):
                 want2 = [d for d in in_use if ids[kind][d] == d]
                 if got != want2:
                     return f"{inp}: yields {got} but the in-use darts that are their own {kind} are {want2}"
-            ok = glued if pol == "v" else all(face_ok3(cells["f"][d], b) for d in in_use) if pol == "f" else True
+            ok = glued if pol == "f" else True
             if not ok:
                 COUNT3["iter_skipped"] += 1
                 continue
             COUNT3["iter_checked"] += 1
             want = sorted(set(min(cells[pol][d]) for d in in_use))
             if got != want:
-                return f"{inp}: yields {got} but the identifiers of the in-use darts are {want}"
+                tag = "[fid-open-face] " if pol == "f" and any(b[1][d] == 0 for d in in_use) else ""
+                return f"{tag}{inp}: yields {got} but the identifiers of the in-use darts are {want}"
     # equal ids <=> same cell, on the implementation's answers (where the id clause is claimed)
     for pol, kind in SYM3.items():
         ds = sorted(d for d in claimed[kind] if d in ids[kind])
@@ -616,7 +626,8 @@ def oracle_c03_3d(case, li):
                 same_id = ids[kind][d] == ids[kind][e]
                 same_cell = e in cells[pol][d]
                 if same_id != same_cell:
-                    return f"{kind}: darts {d} and {e} have ids {ids[kind][d]}, {ids[kind][e]} but same-cell is {same_cell}"
+                    tag = open_face_tag(kind, cells["f"][d] | cells["f"][e], b)
+                    return f"{tag}{kind}: darts {d} and {e} have ids {ids[kind][d]}, {ids[kind][e]} but same-cell is {same_cell}"
     return None
 
 
@@ -763,4 +774,9 @@ def run(tier, seed):
 
 
 def matches(known, v):
-    return False
+    """a known finding with matcher kind `face-id-open-face` absorbs oracle failures (never model/implementation disagreements)
+    whose text starts with the tag `[fid-open-face] ` (a face-id clause failing on an open face); anything else stays a violation"""
+    if v.get("kind") != "oracle":
+        return False
+    fail = (v.get("replay") or {}).get("oracle_failure") or ""
+    return (known.get("matcher") or {}).get("kind") == "face-id-open-face" and fail.startswith("[fid-open-face] ")
